@@ -1,6 +1,6 @@
 """C17 - loop connections compute the accumulated repeated sub-network."""
 from ..core import Unestablished
-from ..hir import walk, strip, pretty, short, calls, pat_binds, npretty
+from ..hir import walk, strip, pretty, short, calls, pat_binds, npretty, cpretty, let_table
 from .. import e1, e4
 from ..e1 import Rat
 from .common import top_stmts_of, check_acc_dispatch, acc_matches, mentions_local, INPLACE, T
@@ -95,7 +95,9 @@ def r1(ctx):
     if len(rs) == 1 and inp is not None:
         cn = strip(rs[0]["c"])
         okr = (cn.get("k") == "bin" and cn["op"] == "Ne" and e4.local_hid(cn["l"]) == inp["pat"]["hid"] and pretty(strip(cn["r"])) == "self.layers[i].outputs()"
-               and pretty(strip(rs[0]["th"])).find("current = current.reshape(inputs.clone())") >= 0)
+               and any(x_.get("k") == "assign" and cpretty(x_, let_table(il["body"])) in ("current = current.reshape(inputs.clone())",
+                                                                                            "current = current.reshape(%s.clone())" % cpretty(inp["init"], let_table(il["body"])))
+                       for x_ in walk(rs[0]["th"])))
     ctx.check("R17.1", "reshape-to-entry-shape", oki and okr, "reshape-on-mismatch", c.loc(fn, il), "if layers[into].inputs() != layers[i].outputs() { current = current.reshape(inputs) }")
     sk = [s for s in ist if s.get("k") == "if" and e4.local_hid(s["c"]) == sk_h]
     oks = False
@@ -276,7 +278,15 @@ def r3(ctx):
         okl = bool(rng_ok) and arms_ok and n == 4 and bool(m) and cpretty(m[0]["scrut"], TT) == "self.layers[k]"
     ctx.check("R17.3", "loop-counts-raised", okl, "loop-count-update", c.loc(fn), "for k in into..outof+1: layer.loops += iterations")
     ins = [x for x in walk(fn["body"]) if x.get("k") == "mcall" and x["name"] == "insert"]
-    ok = len(ins) == 1 and pretty(strip(ins[0]["args"][1])) == "(into, iterations, inskips)"
+    # the stored components are the caller's arguments themselves (parameters by identity, not a re-bound / adjusted copy)
+    ok = False
+    if len(ins) == 1:
+        tv = strip(ins[0]["args"][1])
+        kv = e4.local_hid(ins[0]["args"][0])
+        if tv is not None and tv.get("k") == "tup" and len(tv["xs"]) == 3:
+            from ..hir import resolve
+            comp = [e4.local_hid(resolve(z, TT)) for z in tv["xs"]]
+            ok = comp == [P.get("into"), P.get("iterations"), P.get("inskips")] and None not in comp and kv == P.get("outof")
     ctx.check("R17.3", "stored-triple", ok, "stored-connection", c.loc(fn), "loopbacks.insert(outof, (into, iterations, inskips))")
 
 
